@@ -173,7 +173,7 @@ def eval_tablify(ctx: Ctx, rep: Report, fn: FuncInfo, r2: str, r3: str) -> bool:
     results = []
     for base_len in (1, 2, 3, 7):
         base = tuple(range(1, base_len + 1))
-        for indices in ([(5,)], [(5,), (6,)], [(10, 2), (10, 3), (1, 0)], [(1, 0, 3), (1, 0, 4)], [(0,), (10,), (100,)]):
+        for indices in ([(5,)], [(5,), (6,)], [(10, 2), (10, 3), (1, 0)], [(1, 0, 3), (1, 0, 4)], [(0,), (10,), (100,)], [(4, 10, 0), (16, 1, 2, 3, 4)], [(7,), (7, 1), (8, 2, 2)]):  # the last two: indices of different lengths (ipAddressTable style)
             for columns in ([1], [1, 2], [2, 10, 20]):
                 cells = []
                 k = 0
@@ -288,4 +288,75 @@ def eval_filter(ctx: Ctx, rep: Report, fn: FuncInfo, r1: str, r2: str, r8: str) 
     rep.check(not bad1, r1, fn.site(), f"{fn.name}: exactly the bindings inside a walked root that were not delivered before are yielded - once, also when an instance arrives twice in one batch ({n} batches evaluated)", "; ".join(f"{t}: {d}" for *_, t, d in bad1[:2]), key=f"{fn.key}|filter-semantics")
     rep.check(not bad2, r2, fn.site(), f"{fn.name}: every yielded OID is recorded in the seen-set shared by all rounds ({n} batches evaluated)", "; ".join(f"{t}: {d}" for *_, t, d in bad2[:2]), key=f"{fn.key}|seen-add")
     rep.check(not bad8, r8, fn.site(), f"{fn.name}: bindings are yielded root by root, within a root in the order received ({n} batches evaluated)", "; ".join(f"{t}: {d}" for *_, t, d in bad8[:2]), key=f"{fn.key}|reordered-within-root")
+    return True
+
+
+# ------------------------------------------------------------------ PyWrapper.table / bulktable (row conversion)
+def eval_wrapper_table(ctx: Ctx, rep: Report, wrapper, name: str, rule: str) -> bool:
+    """
+    Specification: the pythonic table operations hand back one row per raw row, in the same order; the row index under
+    '0' is the raw row's index string unchanged, every other cell is `pythonize()` of the raw cell under the same
+    column key - for full tables, sparse tables (a column missing in the first or in a later row) and empty ones.
+    The raw operation is modelled as "returns these rows".
+    """
+    meth = wrapper.methods.get(name)
+    client_cls = ctx.client()
+    raw = ctx.r.method(client_cls, name)
+    if meth is None or raw is None:
+        return False
+    int_cls = ctx.u.cls("x690.types:Integer")
+    results = []
+    shapes = {
+        "empty table": [],
+        "one row, one column": [{"0": "1", "1": "a"}],
+        "2 rows x 2 columns": [{"0": "1", "1": "a", "2": "b"}, {"0": "2", "1": "c", "2": "d"}],
+        "first row lacks a column the second row has": [{"0": "1", "1": "a"}, {"0": "2", "1": "c", "4": "d"}],
+        "second row lacks a column": [{"0": "10.1", "1": "a", "2": "b"}, {"0": "10.2", "2": "d"}],
+        "column keys in descending order": [{"0": "7", "20": "a", "3": "b"}],
+    }
+    for label, spec in shapes.items():
+        cells: Dict[str, Instance] = {}
+        rows = []
+        for r_i, row in enumerate(spec):
+            built: Dict[str, Any] = {}
+            for key, tok in row.items():
+                if key == "0":
+                    built[key] = tok
+                else:
+                    inst = Instance(int_cls, [], {})
+                    py = Sym(f"py({tok}@{r_i})")
+                    inst.attrs.update(value=py, pyvalue=py)
+                    cells[f"{r_i}:{key}"] = inst
+                    built[key] = inst
+            rows.append(built)
+        snapshot = [dict(r) for r in rows]
+        me = Instance(wrapper, [], {})
+        me.attrs["client"] = Instance(client_cls, [], {})
+        ev = MiniEval(ctx, externals={raw.key: (lambda args, kwargs, rows=rows: rows)}, max_steps=40000)
+        try:
+            kind, got = "return", ev.call_function(meth, [me, "1.3.6.1.2.1.2.2"], {})
+        except Raised as exc:
+            kind, got = "raise", exc.value
+        except Unevaluable as exc:
+            rep.info(f"{meth.qualname} is not followed by the evaluator ({exc}); reading its structure instead")
+            return False
+        ok = kind == "return" and isinstance(got, list) and len(got) == len(snapshot) and all(isinstance(g, dict) for g in got)
+        if ok:
+            for g, w in zip(got, snapshot):
+                if set(g) != set(w) or g.get("0") != w["0"]:
+                    ok = False
+                    break
+                for key, cell in w.items():
+                    if key != "0" and g[key] is not cell.attrs["value"]:
+                        ok = False
+        results.append((ok, label, f"{kind}: {got!r}"[:240]))
+    bad = [r for r in results if not r[0]]
+    rep.check(
+        not bad,
+        rule,
+        meth.site(),
+        f"wrapper {name}: one converted row per raw row, in order; the index under '0' unchanged, every other cell the pythonized raw cell of the same column ({len(results)} table shapes evaluated, sparse ones included)",
+        "; ".join(f"{t}: {d}" for _, t, d in bad[:2]),
+        key=f"{meth.key}|rows-converted",
+    )
     return True
